@@ -33,7 +33,7 @@ GROUPS += [
 # the history-source invariant is carried through an HMM evaluation by the back-pointer clauses of the Viterbi step contracts (shared with C02)
 _spec2 = importlib.util.spec_from_file_location("g02", os.path.join(os.path.dirname(os.path.abspath(__file__)), "C02.py"))
 _c02 = importlib.util.module_from_spec(_spec2); _spec2.loader.exec_module(_c02)
-GROUPS += [dict(g) for g in _c02.GROUPS if g["name"] in ("hmm_vit_eval_3st_lr", "hmm_vit_eval_3st_lr_mpx", "hmm_enter", "hmm_vit_eval_dispatch", "hmm_vit_eval_dispatch_mpx")]
+GROUPS += [dict(g) for g in _c02.GROUPS if g["name"] in ("hmm_vit_eval_3st_lr", "hmm_vit_eval_3st_lr_mpx", "hmm_enter", "hmm_vit_eval_dispatch", "hmm_vit_eval_dispatch_mpx", "hmm_clear")]
 ENFORCED_ELSEWHERE = {}
 NATIVE = [
     dict(name="e2e_invariants", source="native/e2e_invariants.c", repo_sources="ALL_EXCEPT:", cflags=["-w", "-fsanitize=address"],
